@@ -42,6 +42,8 @@ pub fn await_prog(s: &mut Src, never: bool) -> Program {
     if s.chance(1, 3) {
         waiter.push(Op::Load { a: 2, o: s.of(&LO) });
     }
+    // (no do-while form: an unconditional yield_now means "cannot progress until another thread ran" and
+    // "do not show me again what I saw before" to loom - a documented semantic change, not a loop)
     waiter.push(Op::Await { a: 0, v: 1, o: s.of(&LO), spin });
     if s.chance(2, 3) {
         waiter.push(Op::Load { a: 2, o: s.of(&LO) });
